@@ -4,11 +4,13 @@ import json, os
 
 HERE = os.path.dirname(os.path.dirname(os.path.abspath(__file__)))
 LIM = ("Alarm surface as measured (DESIGN.md 10.2e): this pack checks conformance to the shapes today's mechanism is written in; it keeps its "
-       "verdict only while it still recognises the mechanism. Of 116 independently written behaviour-preserving refactorings 108 are silent for "
-       "all checks, 8 are reported with behaviour unchanged (selftest/limitations/: protocol redesigns between mechanism functions, data-layout "
-       "splits of the identifier map, pipeline rewrites of the naming code), and rewrites at the scale of a module mostly are. During development "
-       "the packs lost recognition on equivalent rewrites nobody had flagged, several times. A report of a `roles`, `inventory` or `not "
-       "recognised` rule means `re-confirm the mechanism`, and can be an alarm on correct code. ")
+       "verdict only while it still recognises the mechanism. Two rounds of twelve behaviour-preserving clean-ups, written by independent agents "
+       "after the rules were last changed and run untouched, gave 5 of 12 and then 7 of 12 silent at first contact - the rest were reported with "
+       "behaviour unchanged. After generalising on them, 130 of all 140 stored probes are silent (in-sample); 10 stay reported "
+       "(selftest/limitations/: protocol redesigns between mechanism functions, data-layout splits of the identifier map, pipeline rewrites of "
+       "the naming code, a field type that is the product of two independent choices, a helper returning Option<String>). During development the "
+       "packs lost recognition on equivalent rewrites nobody had flagged, several times. A report of a `roles`, `inventory`, `renderer-model` or "
+       "`not recognised` rule means `re-confirm the mechanism`, and can be an alarm on correct code. ")
 TB = ("Trusted base: rustc nightly MIR (mir-opt-level=0) of /repo's current working tree as produced by the real cargo build "
       "flags; std, quick-xml 0.37.5, convert_string 0.2.0, clap and log behave as documented. ")
 
@@ -22,7 +24,7 @@ CHECKS = {
     "C08": dict(lim=True, cat="other", tech="static analysis: error-discipline dataflow over MIR (Result propagation, constructor provenance inventory, event-class effect summaries)", ref="DESIGN.md section 4 C08, section 3 A3/A4",
                 text="Decides that no error is swallowed, softened or invented by the crate: each Result (and Option<Result> iterator item) is propagated on every path; the closed inventory of ParserError constructors obeys provenance rules (reader position + reader error in the Err arm; attribute error payload; strict from_utf8; no-root only after the loop); no lenient conversion or reader configuration; ignored event kinds have no effect. Not decided: quick-xml's own verdicts.",
                 note=TB + "The caller supplies a default-configured reader."),
-    "C12": dict(cat="other", tech="static analysis: effect-order/dominance rules and symbolic sink values over the binary's MIR", ref="DESIGN.md section 4 C12, section 3 A7",
+    "C12": dict(lim=True, cat="other", tech="static analysis: effect-order/dominance rules and symbolic sink values over the binary's MIR", ref="DESIGN.md section 4 C12, section 3 A7",
                 text="Decides everything the property states given std/clap/log semantics: output effects only after both the read and the parse succeeded; sink value = the property's header + library rendering of the parsed root with options derived from --parser/--derive/--sort; file branch writes `{}` only and nothing to stdout; stdout branch prints `{}\\n` and touches no file; conversion tables, value names and defaults; error handler = stderr diagnostic, no stdout, always exit(1). The CLI has no tests at all.",
                 note=TB + "Exit status 0 follows from main returning; the program's own (non-derive) code contains no panic-capable construct (A2 inventory over the binary, R12.9); env_logger configuration analysed in the thorough tier."),
     "C15": dict(lim=True, cat="other", tech="static analysis: shape rules + path-enumerated outcome table of the merge function's MIR", ref="DESIGN.md section 4 C15, section 3 A9",
